@@ -1,9 +1,305 @@
 import JominiModel.Driver.Util
-namespace Jomini.Driver.C08
-open Jomini Jomini.Driver
+import JominiModel.Model.BinLexer
+import JominiModel.Model.BinReader
+/-
+ops of the binary byte→token layer (C08, and the binary clauses of C09 / C19 / C20):
 
-/-- ops of property C08 (none yet). -/
+  blex <hex>                         next_token until end/error: `<toks> <outcome> <pos>`
+  bcut <hex> <k>                     blex of the first k bytes
+  blexid <hex>                       the same through next_id + read_* primitives
+  bpeek <hex>                        `<peek_id|none> <peek_token|none>`
+  bwrite <toks>                      Token::write of every token: hex
+  bstream <cap> <sched> <hex>        TokenReader.next until end/error: `<toks> <outcome> <pos> <delivered>`
+  bread <cap> <sched> <hex>          the same through `read()` (always ends in an error)
+  bcalls <cap> <sched> <hex> <n>     n successive next() calls, continuing after errors
+  breadbytes <cap> <sched> <hex> <n,n,..>   read_bytes calls
+  bskip <cap> <sched> <hex> <k>      reader: tokens up to and including the k-th Open, skip_container, next token
+  blexskip <hex> <k>                 lexer: the same with skip_value(OPEN)
+  blexskipv <hex> <k>                lexer: k tokens, read_id, skip_value(id), next token
+  bufops <cap> <sched> <hex> <ops>   BufferWindow directly: ops `f` (fill_buf) / `a<n>` (advance n)
+
+<cap> = n (fresh zeroed buffer) | r<n> (recycled buffer full of 0xaa) | S (from_slice)
+-/
+namespace Jomini.Driver.C08
+open Jomini Jomini.Driver Jomini.BinLexer Jomini.BinReader
+
+def showRgb (c : Rgb) : String :=
+  match c.a with
+  | some a => s!"Rgb:{c.r}.{c.g}.{c.b}.{a}"
+  | none => s!"Rgb:{c.r}.{c.g}.{c.b}"
+
+/-- show.rs `bin_lex_tok` -/
+def showTok : Token → String
+  | .open => "Open"
+  | .close => "Close"
+  | .equal => "Equal"
+  | .u32 v => s!"U32:{v}"
+  | .u64 v => s!"U64:{v}"
+  | .i32 v => s!"I32:{v}"
+  | .bool b => if b then "Bool:1" else "Bool:0"
+  | .quoted s => s!"Q:{toHex s}"
+  | .unquoted s => s!"U:{toHex s}"
+  | .f32 b => s!"F32:{toHex b}"
+  | .f64 b => s!"F64:{toHex b}"
+  | .rgb c => showRgb c
+  | .i64 v => s!"I64:{v}"
+  | .id v => s!"Id:{v}"
+
+def showToks (ts : List Token) : String :=
+  if ts.isEmpty then "-" else ",".intercalate (ts.map showTok)
+
+def showLexErr : LexErr → String
+  | .eof => "err:eof"
+  | .invalidRgb => "err:invalidrgb"
+
+def showTerminal : Terminal → String
+  | .done => "end"
+  | .err e => showLexErr e
+
+def showKind : RErrKind → String
+  | .read => "err:io"
+  | .bufferFull => "err:bufferfull"
+  | .lexer e => showLexErr e
+  | .ub => "panic"
+  | .fuel => "model-out-of-fuel"
+
+def showStreamEnd : StreamEnd → String
+  | .done => "end"
+  | .err k => showKind k
+
+/-! parsing -/
+
+def parseStep (s : String) : Option Step :=
+  if s == "F" then some .fail
+  else if s == "P" then some .failForever
+  else if s.startsWith "R" then
+    match (s.drop 1).toNat? with
+    | some n => if n ≥ 1 then some (.repeat n) else none
+    | none => none
+  else
+    match s.toNat? with
+    | some n => if n ≥ 1 then some (.give n) else none
+    | none => none
+
+def parseSched (s : String) : Option (List Step) :=
+  if s == "-" then some [] else (s.splitOn ",").mapM parseStep
+
+/-- reader construction from the `<cap>` word -/
+def mkReader (capw : String) (sched : List Step) (data : Bytes) : Option Reader :=
+  if capw == "S" then some (Reader.fromSlice data)
+  else if capw.startsWith "r" then
+    (capw.drop 1).toNat?.map fun n => Reader.build (List.replicate n 0xaa) (Src.new data sched)
+  else capw.toNat?.map fun n => Reader.ofLen n (Src.new data sched)
+
+def parseNats (s : String) : Option (List Nat) :=
+  if s == "-" then some [] else (s.splitOn ",").mapM (·.toNat?)
+
+def parseTok (s : String) : Option Token :=
+  match s.splitOn ":" with
+  | ["Open"] => some .open
+  | ["Close"] => some .close
+  | ["Equal"] => some .equal
+  | ["U32", v] => v.toNat?.map .u32
+  | ["U64", v] => v.toNat?.map .u64
+  | ["I32", v] => v.toInt?.map .i32
+  | ["I64", v] => v.toInt?.map .i64
+  | ["Bool", v] => if v == "1" then some (.bool true) else if v == "0" then some (.bool false) else none
+  | ["Q", h] => (parseHex h).map .quoted
+  | ["U", h] => (parseHex h).map .unquoted
+  | ["F32", h] => (parseHex h).map .f32
+  | ["F64", h] => (parseHex h).map .f64
+  | ["Id", v] => v.toNat?.map .id
+  | ["Rgb", v] =>
+    match (v.splitOn ".").mapM (·.toNat?) with
+    | some [r, g, b] => some (.rgb { r := r, g := g, b := b, a := none })
+    | some [r, g, b, a] => some (.rgb { r := r, g := g, b := b, a := some a })
+    | _ => none
+  | _ => none
+
+def parseToks (s : String) : Option (List Token) :=
+  if s == "-" then some [] else (s.splitOn ",").mapM parseTok
+
+/-! op bodies -/
+
+/-- lexer: read tokens until the `k`-th `Open` (0-based) has been returned -/
+def lexToOpen : Nat → Lexer → Nat → Except String Lexer
+  | 0, _, _ => .error "model-out-of-fuel"
+  | fuel + 1, l, k =>
+    match l.nextToken with
+    | (.ok (some .open), l) => if k = 0 then .ok l else lexToOpen fuel l (k - 1)
+    | (.ok (some _), l) => lexToOpen fuel l k
+    | (.ok none, l) => .error s!"noopen {l.position}"
+    | (.error e, l) => .error s!"pre:{showLexErr e.kind} {l.position}"
+
+def lexSkipTokens : Nat → Lexer → Except String Lexer
+  | 0, l => .ok l
+  | n + 1, l =>
+    match l.nextToken with
+    | (.ok (some _), l) => lexSkipTokens n l
+    | (.ok none, l) => .error s!"short {l.position}"
+    | (.error e, l) => .error s!"pre:{showLexErr e.kind} {l.position}"
+
+def showLexNext (l : Lexer) : String :=
+  match l.nextToken with
+  | (.ok (some t), l) => s!"{showTok t} {l.position}"
+  | (.ok none, l) => s!"end {l.position}"
+  | (.error e, l) => s!"{showLexErr e.kind} {l.position}"
+
+def showLexSkip (r : Option Lexer.UnitRes) : String :=
+  match r with
+  | none => "model-out-of-fuel"
+  | some (.ok (), l) => s!"ok {l.position} {showLexNext l}"
+  | some (.error e, l) => s!"{showLexErr e.kind} {e.position} {l.position}"
+
+/-- reader: read tokens until the `k`-th `Open` has been returned -/
+def readToOpen : Nat → Reader → Nat → Except String Reader
+  | 0, _, _ => .error "model-out-of-fuel"
+  | fuel + 1, rd, k =>
+    match Reader.next rd.fuelFor rd with
+    | (.ok (some .open), rd) => if k = 0 then .ok rd else readToOpen fuel rd (k - 1)
+    | (.ok (some _), rd) => readToOpen fuel rd k
+    | (.ok none, rd) => .error s!"noopen {rd.position}"
+    | (.error e, rd) => .error s!"pre:{showKind e.kind} {rd.position}"
+
+def showReadNext (rd : Reader) : String :=
+  match Reader.next rd.fuelFor rd with
+  | (.ok (some t), rd) => s!"{showTok t} {rd.position}"
+  | (.ok none, rd) => s!"end {rd.position}"
+  | (.error e, rd) => s!"{showKind e.kind} {rd.position}"
+
+def showCall : Call → String
+  | .tok t => showTok t
+  | .done => "end"
+  | .err k => showKind k
+
+/-- `n` calls with the position after each one -/
+def callLog : Nat → Reader → List String × Reader
+  | 0, rd => ([], rd)
+  | n + 1, rd =>
+    let (cs, rd') := Reader.calls 1 rd
+    let here := match cs with | c :: _ => s!"{showCall c}@{rd'.position}" | [] => "?"
+    let (rest, r) := callLog n rd'
+    (here :: rest, r)
+
+def readLoop : Nat → Reader → List Token × String × Reader
+  | 0, rd => ([], "model-out-of-fuel", rd)
+  | fuel + 1, rd =>
+    match rd.read with
+    | (.ok t, rd') =>
+      let (ts, e, r) := readLoop fuel rd'
+      (t :: ts, e, r)
+    | (.error e, rd') => ([], showKind e.kind, rd')
+
+def readBytesLog : List Nat → Reader → List String × Reader
+  | [], rd => ([], rd)
+  | n :: ns, rd =>
+    match rd.readBytes n with
+    | (.ok b, rd') =>
+      let (rest, r) := readBytesLog ns rd'
+      (s!"{toHex b}@{rd'.position}" :: rest, r)
+    | (.error e, rd') =>
+      let (rest, r) := readBytesLog ns rd'
+      (s!"{showKind e.kind}@{rd'.position}" :: rest, r)
+
+/-- `bufops`: the state after every op as `<result>:<window hex>@<position>` -/
+def bufOps : List String → Buf → Src → List String
+  | [], _, _ => []
+  | op :: ops, b, s =>
+    if op == "f" then
+      match b.fillBuf s with
+      | (r, b', s') =>
+        let rs := match r with
+          | .ok n => s!"{n}"
+          | .error .io => "io"
+          | .error .bufferFull => "full"
+        s!"f={rs}:{toHex b'.window}@{b'.position}" :: bufOps ops b' s'
+    else if op.startsWith "a" then
+      match (op.drop 1).toNat? with
+      | none => ["bad-op"]
+      | some n =>
+        match b.advance n with
+        | none => ["ub"]
+        | some b' => s!"a:{toHex b'.window}@{b'.position}" :: bufOps ops b' s
+    else ["bad-op"]
+
 def handle : Handler
+  | ["blex", h] => (parseHex h).map fun d =>
+      let (ts, term, p) := Lexer.run d
+      s!"{showToks ts} {showTerminal term} {p}"
+  | ["bcut", h, kw] => do
+      let d ← parseHex h
+      let k ← kw.toNat?
+      if k > d.length then none else
+      let (ts, term, p) := Lexer.run (d.take k)
+      pure s!"{showToks ts} {showTerminal term} {p}"
+  | ["blexid", h] => (parseHex h).map fun d =>
+      let (ts, term, p) := Lexer.runIds d
+      s!"{showToks ts} {showTerminal term} {p}"
+  | ["bpeek", h] => (parseHex h).map fun d =>
+      let l := Lexer.new d
+      let a := match l.peekId with | some i => s!"{i}" | none => "none"
+      let b := match l.peekToken with | some t => showTok t | none => "none"
+      s!"{a} {b}"
+  | ["bwrite", ts] => (parseToks ts).map fun toks => toHex (toks.flatMap Token.write)
+  | ["bstream", capw, sw, h] => do
+      let d ← parseHex h
+      let sched ← parseSched sw
+      let rd ← mkReader capw sched d
+      let (ts, e, r) := Reader.streamAll rd
+      pure s!"{showToks ts} {showStreamEnd e} {r.position} {r.src.delivered}"
+  | ["bread", capw, sw, h] => do
+      let d ← parseHex h
+      let sched ← parseSched sw
+      let rd ← mkReader capw sched d
+      let (ts, e, r) := readLoop (Reader.streamFuel rd) rd
+      pure s!"{showToks ts} {e} {r.position} {r.src.delivered}"
+  | ["bcalls", capw, sw, h, nw] => do
+      let d ← parseHex h
+      let sched ← parseSched sw
+      let rd ← mkReader capw sched d
+      let n ← nw.toNat?
+      let (cs, r) := callLog n rd
+      pure s!"{if cs.isEmpty then "-" else ",".intercalate cs} {r.src.delivered}"
+  | ["breadbytes", capw, sw, h, nsw] => do
+      let d ← parseHex h
+      let sched ← parseSched sw
+      let rd ← mkReader capw sched d
+      let ns ← parseNats nsw
+      let (cs, r) := readBytesLog ns rd
+      pure s!"{if cs.isEmpty then "-" else ",".intercalate cs} {r.src.delivered}"
+  | ["bskip", capw, sw, h, kw] => do
+      let d ← parseHex h
+      let sched ← parseSched sw
+      let rd ← mkReader capw sched d
+      let k ← kw.toNat?
+      match readToOpen (Reader.streamFuel rd) rd k with
+      | .error msg => pure msg
+      | .ok rd =>
+        match rd.skipContainer with
+        | (.ok (), rd') => pure s!"ok {rd'.position} {showReadNext rd'}"
+        | (.error e, rd') => pure s!"{showKind e.kind} {e.position} {rd'.position}"
+  | ["blexskip", h, kw] => do
+      let d ← parseHex h
+      let k ← kw.toNat?
+      match lexToOpen (d.length / 2 + 2) (Lexer.new d) k with
+      | .error msg => pure msg
+      | .ok l => pure (showLexSkip (l.skipValue OPEN))
+  | ["blexskipv", h, kw] => do
+      let d ← parseHex h
+      let k ← kw.toNat?
+      match lexSkipTokens k (Lexer.new d) with
+      | .error msg => pure msg
+      | .ok l =>
+        match l.readId with
+        | (.error e, l) => pure s!"id:{showLexErr e.kind} {l.position}"
+        | (.ok id, l) => pure s!"{id} {showLexSkip (l.skipValue id)}"
+  | ["bufops", capw, sw, h, opsw] => do
+      let d ← parseHex h
+      let sched ← parseSched sw
+      let rd ← mkReader capw sched d
+      let ops := if opsw == "-" then [] else opsw.splitOn ","
+      let out := bufOps ops rd.buf rd.src
+      pure (if out.isEmpty then "-" else ";".intercalate out)
   | _ => none
 
 end Jomini.Driver.C08
